@@ -3,6 +3,7 @@ import re
 from rules import agent as A
 from e1 import call_sites
 
+THOROUGH_CONFIGS = ("release", "arbitrary")
 LEVEL = "proof"
 
 PEERS_WRITERS = [r"StunAgent::validated_peer$"]
